@@ -271,3 +271,22 @@ Theorem css_compile_sound_refuted :
   exists (U : css_fset) prog g, In g (css_compile U prog) /\ U g = true /\ css_dispose g = CGeneratedOnly.
 Proof. exact css_compile_refuted_l. Qed.
 Print Assumptions css_compile_sound_refuted.
+
+(* ---------- syntax introduced by esbuild's own rewrites ---------- *)
+
+(* the regenerated multiset of `!Has(compat.X)` gates (the places where esbuild may WRITE newer
+   syntax) is the committed one: a dropped or merged guard breaks this *)
+Theorem newer_syntax_gates_exact :
+  forallb (fun r : String.string * feature * Z => count_has_not (fst (fst r)) (snd (fst r)) =? snd r) expected_newer_syntax_gates = true
+  /\ total_has_not = fold_right (fun (r : String.string * feature * Z) acc => snd r + acc) 0 expected_newer_syntax_gates.
+Proof. exact newer_syntax_gates_exact_l. Qed.
+Print Assumptions newer_syntax_gates_exact.
+
+(* every feature-introducing rewrite of the minifier / code generators is guarded, in the
+   function that performs it, by a `!Has` gate on exactly the feature it writes; so for EVERY
+   unsupported set it writes only supported syntax *)
+Theorem minify_introduces_only_supported : forall (U : fset) r g,
+  In r introducing_rewrites -> In g (rewrite_writes U r) ->
+  U g = false /\ 1 <= count_has_not (snd (fst r)) (snd r).
+Proof. exact minify_introduces_only_supported_l. Qed.
+Print Assumptions minify_introduces_only_supported.
